@@ -164,21 +164,19 @@ class ScopeMonitor:
                 # independent resolution: innermost scope that binds the name
                 exp = None
                 for d in range(len(self.scopes) - 1, -1, -1):
-                    if dict.__contains__(self.scopes[d], item):
-                        exp = d
-                        break
+                    try:
+                        if item in self.scopes[d]:
+                            exp = d
+                            break
+                    except TypeError:
+                        pass
                 try:
                     v = mon.orig['__getitem__'](self, item)
                 except BaseException:
                     mon.events.append(('get-miss', id(self), item, len(self.scopes), exp))
                     raise
-                got = None
-                for d in range(len(self.scopes) - 1, -1, -1):
-                    sc = self.scopes[d]
-                    if dict.__contains__(sc, item) and dict.__getitem__(sc, item) is v:
-                        got = d
-                        break
-                mon.events.append(('get', id(self), item, len(self.scopes), exp, got))
+                ok = exp is not None and self.scopes[exp][item] is v
+                mon.events.append(('get', id(self), item, len(self.scopes), exp, ok))
                 return v
             return mon.orig['__getitem__'](self, item)
 
